@@ -105,6 +105,11 @@ int libwifi_bss_handle_msft_tag(struct libwifi_bss *bss, const unsigned char *ms
     struct libwifi_wpa_info wpa_info = {0};
     struct libwifi_tag_vendor_header *vendor_header = (struct libwifi_tag_vendor_header *) msft_data;
 
+    // The OUI and the vendor type must be present
+    if (msft_len < (int) sizeof(struct libwifi_tag_vendor_header)) {
+        return -EINVAL;
+    }
+
     switch (vendor_header->type) {
         case MICROSOFT_OUI_TYPE_WPA:
             if (bss->encryption_info & WEP) {
@@ -114,7 +119,7 @@ int libwifi_bss_handle_msft_tag(struct libwifi_bss *bss, const unsigned char *ms
 
             // Skip 4 bytes for the OUI (3) and Vendor Tag Type (1)
             const unsigned char *wpa_data = msft_data + sizeof(struct libwifi_tag_vendor_header);
-            const unsigned char *wpa_end = msft_data + (msft_len + sizeof(struct libwifi_tag_vendor_header));
+            const unsigned char *wpa_end = msft_data + msft_len;
 
             if ((libwifi_get_wpa_info(&wpa_info, wpa_data, wpa_end) != 0)) {
                 return -EINVAL;
@@ -152,7 +157,9 @@ int libwifi_bss_tag_parser(struct libwifi_bss *bss, struct libwifi_tag_iterator 
                 break;
             case TAG_DS_PARAMETER:
             case TAG_HT_OPERATION:
-                memcpy(&bss->channel, it->tag_data, 1);
+                if (it->tag_header->tag_len >= 1) {
+                    memcpy(&bss->channel, it->tag_data, 1);
+                }
                 break;
             case TAG_RSN:
                 if ((libwifi_bss_handle_rsn_tag(bss, it->tag_data, it->tag_header->tag_len) != 0)) {
@@ -162,19 +169,22 @@ int libwifi_bss_tag_parser(struct libwifi_bss *bss, struct libwifi_tag_iterator 
             case TAG_VENDOR_SPECIFIC:
                 vendor_header = (struct libwifi_tag_vendor_header *) it->tag_data;
 
-                if (memcmp(vendor_header->oui, MICROSOFT_OUI, 3) == 0) {
+                if (it->tag_header->tag_len >= sizeof(struct libwifi_tag_vendor_header) &&
+                    memcmp(vendor_header->oui, MICROSOFT_OUI, 3) == 0) {
                     if ((libwifi_bss_handle_msft_tag(bss, it->tag_data, it->tag_header->tag_len) != 0)) {
                         return -EINVAL;
                     }
                 }
                 break;
             case TAG_ELEMENT_EXTENSION:
-                extension_header = (struct libwifi_tag_extension_header *) it->tag_data;
+                if (it->tag_header->tag_len >= sizeof(struct libwifi_tag_extension_header)) {
+                    extension_header = (struct libwifi_tag_extension_header *) it->tag_data;
 
-                switch (extension_header->tag_num) {
-                    default:
-                        /* Not Implemented */
-                        break;
+                    switch (extension_header->tag_num) {
+                        default:
+                            /* Not Implemented */
+                            break;
+                    }
                 }
 
                 break;
@@ -197,7 +207,9 @@ int libwifi_sta_tag_parser(struct libwifi_sta *sta, struct libwifi_tag_iterator 
                                         it->tag_header->tag_len);
                 break;
             case TAG_DS_PARAMETER:
-                memcpy(&sta->channel, it->tag_data, 1);
+                if (it->tag_header->tag_len >= 1) {
+                    memcpy(&sta->channel, it->tag_data, 1);
+                }
                 break;
         }
     } while (libwifi_tag_iterator_next(it) != -1);
